@@ -272,6 +272,7 @@ func (s *sess) Reset() {
 }
 
 func (s *sess) Logout() error {
+	s.b.gate("cb:Logout")
 	s.noteOverlap("Logout")
 	s.b.add(&Event{Sess: s.id, Kind: "Logout", Ended: true})
 	return s.b.LogoutErr
